@@ -59,12 +59,19 @@ type Case struct {
 	HoldSrv  int   `json:"hold_srv,omitempty"`
 	Together bool  `json:"together,omitempty"`
 	Chans    []int `json:"chans,omitempty"` // channel index per connection (default: i%2, or 0 with same_channel)
+	// HoldDial2 n > 0: should the client ever dial a SECOND physical connection, that connection's first write
+	// (the client's hello) returns only after step n; nothing is checked while it is pending. A client that
+	// keeps to one physical session never engages the hold.
+	HoldDial2 int `json:"hold_dial2,omitempty"`
 }
 
 func (c Case) String() string {
 	var s []string
 	for _, o := range c.Ops {
 		s = append(s, o.String())
+	}
+	if c.HoldDial2 > 0 {
+		return fmt.Sprintf("%s k=%d samech=%v together=%v chans=%v holdDial2=%d [%s]", c.Carrier, c.K, c.SameCh, c.Together, c.Chans, c.HoldDial2, strings.Join(s, " "))
 	}
 	return fmt.Sprintf("%s k=%d samech=%v hold=%d holdSrv=%d together=%v chans=%v [%s]", c.Carrier, c.K, c.SameCh, c.Hold, c.HoldSrv, c.Together, c.Chans, strings.Join(s, " "))
 }
@@ -194,8 +201,14 @@ func execute(t *testing.T, c Case) (kind, detail string, stepsDone int, res bubb
 		var release func()
 		o := world.Options{Carrier: c.Carrier, Channels: []string{"x", "y"}}
 		var releaseSrv func()
-		if c.Hold > 0 || c.HoldSrv > 0 {
+		var releaseDial2 func()
+		dials := 0
+		if c.Hold > 0 || c.HoldSrv > 0 || c.HoldDial2 > 0 {
 			o.OnDial = func(cl, sv *netsim.MemConn) {
+				dials++
+				if c.HoldDial2 > 0 && dials == 2 {
+					releaseDial2 = cl.HoldWriteReturn(1)
+				}
 				if c.Hold > 0 && release == nil {
 					release = cl.HoldWriteReturn(c.Hold)
 				}
@@ -363,11 +376,24 @@ func execute(t *testing.T, c Case) (kind, detail string, stepsDone int, res bubb
 				bubble.Wait()
 			}
 			stepsDone++
+			if releaseDial2 != nil {
+				if si < c.HoldDial2 {
+					continue // the second physical connection is pending
+				}
+				releaseDial2()
+				releaseDial2 = nil
+				bubble.Wait()
+			}
 			if !check(fmt.Sprintf("after step %d %v", si, op), false) {
 				return
 			}
 		}
 	closure:
+		if releaseDial2 != nil {
+			releaseDial2()
+			releaseDial2 = nil
+			bubble.Wait()
+		}
 		if releaseSrv != nil {
 			releaseSrv()
 		}
@@ -632,6 +658,31 @@ func TestCheck(t *testing.T) {
 						idx++
 					}
 				}
+			}
+		}
+	}
+	// scripted family: two opens at once on a client without a session; should that make the client dial twice,
+	// the second dial completes only after the first connection has carried data (HoldDial2)
+	for _, carrier := range []string{"stream", "ws"} {
+		for _, chans := range [][]int{{0, 1}, {1, 0}} {
+			for hd := 2; hd <= 3; hd++ {
+				ops := []Op{{Kind: "open", Conn: 0}, {Kind: "open", Conn: 1},
+					{Kind: "write", Conn: 0, Side: sideApp, N: 1}, {Kind: "write", Conn: 0, Side: sideTgt, N: 1},
+					{Kind: "write", Conn: 0, Side: sideApp, N: 70000}, {Kind: "write", Conn: 1, Side: sideApp, N: 1},
+					{Kind: "write", Conn: 0, Side: sideTgt, N: 70000}, {Kind: "write", Conn: 1, Side: sideTgt, N: 1},
+					{Kind: "close", Conn: 0, Side: sideApp}, {Kind: "write", Conn: 1, Side: sideApp, N: 5}}
+				if r.Mine(idx) && !r.OverBudget() {
+					c := Case{Carrier: carrier, K: 2, Ops: ops, Together: true, Chans: chans, HoldDial2: hd}
+					var kind, detail string
+					var steps int
+					r.Guard(idx, 60*time.Second, "hang|"+carrier, c.String(), c, func() {
+						kind, detail, steps, _ = execute(t, c)
+					})
+					record(r, c, kind, detail, steps)
+					r.State(mc.Hash("dial2", carrier, chans, hd, kind != ""))
+					r.Nontrivial(mc.Hash(c.String()))
+				}
+				idx++
 			}
 		}
 	}
